@@ -223,7 +223,10 @@ TRANSPARENT_CALLS = (
     'core::option::Option::as_ref', 'core::option::Option::as_mut',
     'core::option::Option::as_deref', 'core::option::Option::as_deref_mut',
     'core::convert::Into::into', 'core::convert::From::from',
+    'core::result::Result::map_err',
 )
+TRY_BRANCH = 'core::ops::try_trait::Try::branch'
+
 UNWRAP_CALLS = {
     'core::option::Option::unwrap': '@Some', 'core::option::Option::expect': '@Some',
     'core::option::Option::unwrap_unchecked': '@Some',
@@ -307,7 +310,13 @@ class Origins:
                 return [Origin(('fn', strip_generics(k['fn'])))]
             if 'i' in k:
                 return [Origin(('const', k['i'], k.get('s')))]
-            return [Origin(('const', None, k.get('s')))]
+            if 'promoted' in k:
+                pf = self.fn.promoted(k['promoted'])
+                if pf is not None:
+                    po = Origins(pf, self.facts, depth=8).of_local(0, 8)
+                    if po and all(x.root[0] in ('const', 'agg', 'fn') for x in po):
+                        return po
+            return [Origin(('const', None, k.get('uneval') or k.get('s')))]
         if op.place is None:
             return [Origin(('unknown',))]
         return self.of_place(op.place, depth)
@@ -411,6 +420,8 @@ class Origins:
                 if summ is not None:
                     return [o.ext(summ) for o in base]
                 return base
+            if nm == TRY_BRANCH and t.args:
+                return [o.ext(('?',)) for o in self.of_operand(t.args[0], depth)]
             if nm in UNWRAP_CALLS and t.args:
                 return [o.ext((UNWRAP_CALLS[nm],)) for o in self.of_operand(t.args[0], depth)]
         summ = self._getter_summary(t)
@@ -464,3 +475,50 @@ def origin_is_param_path(o, idx, path_suffix=None):
         return True
     ps = tuple(path_suffix)
     return o.path[-len(ps):] == ps if ps else True
+
+
+# =========================================================================== guards (A7)
+
+class Guard:
+    """One dominating branch edge: every path to the site takes switch block `sb` to `target`."""
+
+    def __init__(self, fn, og, sb, vals, target):
+        self.fn = fn
+        self.sb = sb
+        self.vals = vals
+        self.target = target
+        t = fn.blocks[sb].term
+        self.term = t
+        self.discr = og.of_operand(t.switch_discr())
+        self.dty = t.d.get('dty')
+
+    def truth(self):
+        """for boolean switches: the truth value taken, else None"""
+        if self.dty != 'bool':
+            return None
+        if self.vals == (0,):
+            return False
+        if self.vals == ('otherwise',):
+            listed = [v for v, _ in self.term.d['arms']]
+            if listed == [0]:
+                return True
+            if listed == [1]:
+                return False
+        if self.vals == (1,):
+            return True
+        return None
+
+    def render(self):
+        return 'bb%d:%s -> %s' % (self.sb, [o.render() for o in self.discr], self.vals)
+
+    __repr__ = render
+
+
+def guards_of(fn, og, site):
+    cfg = cfg_of(fn)
+    return [Guard(fn, og, sb, vals, tg) for sb, vals, tg in cfg.edge_guards(site)]
+
+
+def origin_calls(o, name_suffix):
+    """does origin o come from a call whose callee ends with name_suffix?"""
+    return o.root[0] == 'call' and (o.root[1] == name_suffix or o.root[1].endswith(name_suffix))
